@@ -163,6 +163,28 @@ def alpha_strings(A, seed, count, maxlen):
     return out
 
 
+def _util(sf, op):
+    x = op["x"]
+    fn = op["fn"]
+    if fn == "split":
+        return outcome(lambda: list(sf.split_selfies(x)))
+    if fn == "len":
+        return outcome(sf.len_selfies, x)
+    if fn == "alphabet_from":
+        return outcome(sf.get_alphabet_from_selfies, [x, x[: len(x) // 2]])
+
+    def enc():
+        alph = sorted(sf.get_alphabet_from_selfies([x])) + ["[nop]"]
+        stoi = {s: i for i, s in enumerate(alph)}
+        n = sf.len_selfies(x) + 2
+        if fn == "to_encoding":
+            lab, hot = sf.selfies_to_encoding(x, stoi, pad_to_len=n, enc_type="both")
+            return sf.encoding_to_selfies(lab, {i: s for s, i in stoi.items()}, enc_type="label"), len(hot)
+        flat = sf.batch_selfies_to_flat_hot([x], stoi, pad_to_len=n)
+        return sf.batch_flat_hot_to_selfies(flat, {i: s for s, i in stoi.items()})
+    return outcome(enc)
+
+
 def execute(sf, ops, passive):
     warnings.simplefilter("ignore")
     H = {}
@@ -205,6 +227,8 @@ def execute(sf, ops, passive):
         elif k == "mutate":
             obj = H.get(op["h"])
             rec["r"] = ("ok", _mutate(obj, op["how"], op["arg"]) if obj is not None else False, None)
+        elif k == "util":
+            rec["r"] = _util(sf, op)[:3]
         elif k == "observe":
             g = outcome(sf.get_semantic_constraints)
             a = outcome(sf.get_semantic_robust_alphabet)
